@@ -51,6 +51,10 @@ def o191(ctx):
     pn = [a_.arg for a_ in fn.args.posonlyargs + fn.args.args]
     if len(pn) < 6 or len(pn) - len(fn.args.defaults) > 6:
         raise Unsupported("get_nn_dist: six required positional parameters expected", fn)
+    if len(pn) > 6 or fn.args.kwonlyargs or fn.args.vararg or fn.args.kwarg:
+        # a further input (candidates handed in by the caller, a cache) can replace the function's own radius query: where those candidates come from and
+        # whether they belong to this query point is decided at the call sites, which this rule does not follow
+        raise Unsupported(f"get_nn_dist takes further inputs ({', '.join(pn[6:]) or 'keyword / variadic'}): the candidates may come from elsewhere than its own radius query", fn)
     am = assume_map({f"{pn[3]} > 0": True, f"{pn[3]} >= 0": True})
 
     def assume(fn_, node_, av_, module_=None):
